@@ -33,6 +33,9 @@ type Cert struct {
 
 // RawQuery runs a self-contained query in a nested scope.
 func (s *Solver) RawQuery(lines []string) Result {
+	if s.dead {
+		s.Reset() // restarts the process
+	}
 	s.Stats.Queries++
 	s.send("(push 1)")
 	for _, l := range lines {
@@ -251,7 +254,6 @@ func (ex *Exec) Certificate() *Cert {
 		lines = append(lines, fmt.Sprintf("(assert (< e%d e%d))", a, b))
 	}
 	// sanity: the observed order must be consistent
-	var disj []string
 	var open []hbPair
 	for _, p := range pairs {
 		if p.a < 0 {
@@ -263,7 +265,6 @@ func (ex *Exec) Certificate() *Cert {
 		}
 		decl(p.a)
 		decl(p.b)
-		disj = append(disj, fmt.Sprintf("(< e%d e%d)", p.b, p.a))
 	}
 	report := func(p hbPair) {
 		if p.mem {
@@ -275,30 +276,55 @@ func (ex *Exec) Certificate() *Cert {
 	for _, p := range open {
 		report(p)
 	}
-	if len(disj) > 0 {
-		q := append(append([]string(nil), lines...), "(assert (or "+strings.Join(disj, " ")+" false))")
-		r := ex.Sol.RawQuery(q)
-		switch r {
+	// memory pairs and endpoint pairs are discharged as two disjunctions; only a
+	// satisfiable group is split into per-pair queries
+	for _, mem := range []bool{true, false} {
+		var dj []string
+		var grp []hbPair
+		for _, p := range pairs {
+			if p.a < 0 || p.a == p.b || p.mem != mem {
+				continue
+			}
+			dj = append(dj, fmt.Sprintf("(< e%d e%d)", p.b, p.a))
+			grp = append(grp, p)
+		}
+		if len(dj) == 0 {
+			continue
+		}
+		q := append(append([]string(nil), lines...), "(assert (or "+strings.Join(dj, " ")+" false))")
+		switch ex.certSolver().RawQuery(q) {
 		case Unsat:
 		case Unknown:
 			c.Voided = "solver unknown on certificate"
 		case Sat:
-			// locate the unordered pairs one by one
-			for _, p := range pairs {
-				if p.a < 0 || p.a == p.b {
+			seen := map[[2]int]bool{}
+			for _, p := range grp {
+				k := [2]int{p.a, p.b}
+				if seen[k] {
 					continue
 				}
+				seen[k] = true
 				q := append(append([]string(nil), lines...), fmt.Sprintf("(assert (< e%d e%d))", p.b, p.a))
-				if ex.Sol.RawQuery(q) != Unsat {
+				if ex.certSolver().RawQuery(q) != Unsat {
 					report(p)
+					if mem && len(c.Races) >= 8 {
+						break
+					}
 				}
 			}
 		}
 	}
 	// the observed edge set itself must be satisfiable (acyclic), else our log is wrong
-	if ex.Sol.RawQuery(lines) != Sat {
+	if ex.certSolver().RawQuery(lines) != Sat {
 		c.Voided = "inconsistent event log"
 	}
 	c.Issued = c.Voided == "" && len(c.Races) == 0 && len(c.ChanNondet) == 0
 	return c
+}
+
+func (ex *Exec) certSolver() *Solver {
+	if ex.CertSol != nil {
+		return ex.CertSol
+	}
+	return ex.Sol
 }
